@@ -164,5 +164,20 @@ def case_solver_forms(case):
     return {"v": v[:8], "nt": True, "n": n, "obs": {"forms": n - 1, "refused": refused}}
 
 
+def case_requests_plain(case):
+    """every request once, no oracle of its own: under vf.callerenv the answers are compared between the caller's environment
+    and the ordinary one"""
+    S = sl.solver()
+    n = 0
+    for name in case["requests"]:
+        S(**requests()[name])
+        n += 1
+    return {"v": [], "nt": True, "n": n}
+
+
 def run_solver_forms(ctx, sub="the same request in other call forms"):
-    return ctx.run_cases(case_solver_forms, [{"request": r} for r in requests()], sub=sub, chunksize=1)
+    from vf import callerenv
+
+    res = ctx.run_cases(case_solver_forms, [{"request": r} for r in requests()], sub=sub, chunksize=1)
+    callerenv.run(ctx, case_requests_plain, [{"requests": list(requests())}])
+    return res
